@@ -65,10 +65,25 @@ type Desc struct {
 	Complete  string     `json:"complete,omitempty"`  // "" | text | prompt
 	CompText  string     `json:"comp_text,omitempty"` // what the device prints when it finishes early (kind text)
 	CompRe    string     `json:"comp_re,omitempty"`
-	FinishAt  int        `json:"finish_at"` // -1: the device never finishes early; k: it does in reaction to event k
+	CompRe2   string     `json:"comp_re2,omitempty"` // a second completion pattern the device never shows
+	FinishAt  int        `json:"finish_at"`          // -1: the device never finishes early; k: it does in reaction to event k
 	Post      []Cmd      `json:"post,omitempty"`
 	Fresh     bool       `json:"fresh,omitempty"` // no operation precedes a dialogue whose first event waits for the prompt
 	Esc       *Esc       `json:"esc,omitempty"`
+	// Ops: kind "multi": several interactive operations (each with its own commands before/after) on
+	// ONE channel; the caller passes the same pattern slice to every operation with Complete != "".
+	Ops []Desc `json:"ops,omitempty"`
+	// Wedge: the transport's Write of this input blocks past the operation timeout (see RunWedge).
+	Wedge *Wedge `json:"wedge,omitempty"`
+}
+
+// Wedge describes a write that is stuck in the transport.
+type Wedge struct {
+	Input     string `json:"input"`
+	What      string `json:"what"`  // secret | event
+	Event     int    `json:"event"` // index of the event whose input is held (what=event)
+	TimeoutMS int    `json:"timeout_ms"`
+	GraceMS   int    `json:"grace_ms"` // the write is let go this long after the timeout if the call is still waiting
 }
 
 // freshPerMille is the share of dialogues (among those whose first event waits for the prompt and
@@ -267,8 +282,8 @@ func genCmd(r *rand.Rand, term byte, prompt string) Cmd {
 // echo precondition (checked by brute force) are resampled.
 func GenDialogue(r *rand.Rand, plain bool) Desc {
 	for {
-		d := genDialogueOnce(r, plain)
-		if d.echoesUnambiguous() {
+		d := genDialogueOnce(r, plain, nil, 0)
+		if d.echoesUnambiguous("") {
 			return d
 		}
 	}
@@ -278,9 +293,9 @@ func GenDialogue(r *rand.Rand, plain bool) Desc {
 // commands; visible events with an expected response) against a superset of what can be unread
 // ahead of its echo: two prompts (initial prompt, prompt printed for a bare return) and the
 // device's whole reaction to the preceding line.
-func (d *Desc) echoesUnambiguous() bool {
+func (d *Desc) echoesUnambiguous(before string) bool {
 	base := d.Prompt + d.NL + d.Prompt
-	prev := ""
+	prev := before // what the preceding operation on the same channel left behind
 	cmdReaction := func(c Cmd) string {
 		s := c.Text + d.NL + lines(c.Out, d.NL)
 		if !c.Eager {
@@ -310,7 +325,11 @@ func (d *Desc) echoesUnambiguous() bool {
 	return true
 }
 
-func genDialogueOnce(r *rand.Rand, plain bool) Desc {
+// genDialogueOnce draws one candidate. With base != nil the dialogue is one operation (number op) of
+// a multi-operation session: the session-wide settings, the search depth and the completion patterns
+// (base.Complete says whether this operation passes them) come from base, it ends at a prompt, and
+// its tokens carry the operation's letter.
+func genDialogueOnce(r *rand.Rand, plain bool, base *Desc, op int) Desc {
 	d := Desc{Kind: "dialogue", Driver: "generic", API: "driver"}
 	genCommon(r, &d)
 	if r.Intn(5) == 0 {
@@ -324,6 +343,12 @@ func genDialogueOnce(r *rand.Rand, plain bool) Desc {
 		d.Prompt += " "
 	}
 	d.Exact = r.Intn(3) == 0
+	opTag := ""
+	if base != nil {
+		d.Driver, d.API, d.Host, d.Prompt, d.NL, d.RC = base.Driver, base.API, base.Host, base.Prompt, base.NL, base.RC
+		d.ReadDelay, d.ReadSize, d.Seg, d.Exact = base.ReadDelay, base.ReadSize, base.Seg, base.Exact
+		opTag = string(rune('a' + op))
+	}
 	terms := r.Perm(len(termChars))
 	ti := 0
 	term := func() byte { ti++; return termChars[terms[ti%len(terms)]] }
@@ -335,7 +360,12 @@ func genDialogueOnce(r *rand.Rand, plain bool) Desc {
 		n = 0
 	}
 	// completion patterns
-	if n > 0 {
+	if base != nil {
+		d.Complete, d.CompText, d.CompRe, d.CompRe2 = base.Complete, base.CompText, base.CompRe, base.CompRe2
+		if d.Complete != "" && r.Intn(3) != 0 {
+			d.FinishAt = r.Intn(n)
+		}
+	} else if n > 0 {
 		switch r.Intn(5) {
 		case 0, 1:
 			d.Complete = "text"
@@ -353,6 +383,9 @@ func genDialogueOnce(r *rand.Rand, plain bool) Desc {
 	var compRes []*regexp.Regexp
 	if d.Complete != "" {
 		compRes = append(compRes, regexp.MustCompile(d.CompRe))
+		if d.CompRe2 != "" {
+			compRes = append(compRes, regexp.MustCompile(d.CompRe2))
+		}
 	}
 	for k := 0; k < n; k++ {
 		e := Ev{Out: genOut(r, 2)}
@@ -371,7 +404,7 @@ func genDialogueOnce(r *rand.Rand, plain bool) Desc {
 			withResp = true // a prompt would end the dialogue here by definition of the completion pattern
 		}
 		if withResp {
-			tok := fmt.Sprintf("zz%d%s", k, randStr(r, "abcdefghijklmnopqrstuvwxy", 3))
+			tok := fmt.Sprintf("zz%s%d%s", opTag, k, randStr(r, "abcdefghijklmnopqrstuvwxy", 3))
 			e.Text, e.Resp = respFamily(r, tok, d.NL)
 			e.LongTail = e.Resp == tok && strings.Contains(e.Text, "notice follows")
 		}
@@ -392,7 +425,7 @@ func genDialogueOnce(r *rand.Rand, plain bool) Desc {
 		nw = 1 + r.Intn(4)
 	}
 	if n > 0 && nw == 0 && (d.Events[0].Resp == "" || d.Events[0].Hidden) {
-		if !d.Events[0].Hidden && r.Intn(1000) < freshPerMille {
+		if base == nil && !d.Events[0].Hidden && r.Intn(1000) < freshPerMille {
 			d.Fresh = true // judged, but with its own class key: see freshPerMille
 			// nothing else in such a case: no completion patterns, no follow-up commands
 			d.Complete, d.CompText, d.CompRe, d.FinishAt, compRes = "", "", "", -1, nil
@@ -409,7 +442,7 @@ func genDialogueOnce(r *rand.Rand, plain bool) Desc {
 		for i := 0; i < np; i++ {
 			d.Post = append(d.Post, genCmd(r, term(), d.Prompt))
 		}
-		if r.Intn(4) == 0 || (plain && r.Intn(2) == 0) {
+		if base == nil && (r.Intn(4) == 0 || (plain && r.Intn(2) == 0)) {
 			c := genCmd(r, term(), d.Prompt)
 			c.Eager, c.Hold = true, 0
 			d.Post = append(d.Post, c)
@@ -437,14 +470,22 @@ func genDialogueOnce(r *rand.Rand, plain bool) Desc {
 		longest = 90 // burst / notice lines
 	}
 	d.PSD = 1000
-	if r.Intn(3) == 0 {
+	if base != nil {
+		d.PSD = base.PSD
+		if d.PSD < 2*longest+16 {
+			d.PSD = 0 // does not fit the session's search depth: the caller resamples
+		}
+	} else if r.Intn(3) == 0 {
 		d.PSD = 2*longest + 16 + r.Intn(64)
 	}
 	// echo-phase traffic: more than the search window (max(depth, 2*len(input))) delivered between
 	// the write of a visible, response-expecting event's input and the end of its echo -- as a burst
 	// of log lines in front of the echo, or as the tail of the previous event's long notice
 	budget := 2000
-	if (d.Seg.Mode == "fixed" || d.Seg.Mode == "geom") && d.Seg.Size <= 7 {
+	if base != nil {
+		budget = 0 // sessions of several operations carry no echo-phase bursts (single dialogues do)
+	}
+	if (d.Seg.Mode == "fixed" || d.Seg.Mode == "geom") && d.Seg.Size <= 7 && budget > 800 {
 		budget = 800 // byte-wise delivery: keep the dialogue well inside the operation timeout
 	}
 	fill := func(min int) []string {
@@ -643,5 +684,119 @@ func GenEscalation(r *rand.Rand) Desc {
 		}
 	}
 	d.Esc = e
+	return d
+}
+
+// lastReaction is what the device printed last in this operation (stale bytes for the next one).
+func (d *Desc) lastReaction() string {
+	cmd := func(c Cmd) string { return c.Text + d.NL + lines(c.Out, d.NL) + d.Prompt }
+	if n := len(d.Post); n > 0 {
+		return cmd(d.Post[n-1])
+	}
+	if s := d.Sent(); s > 0 {
+		return d.reaction(s - 1)
+	}
+	if n := len(d.Warm); n > 0 {
+		return cmd(d.Warm[n-1])
+	}
+	return ""
+}
+
+// GenMulti draws a session of 3-5 interactive operations on one channel. The caller owns ONE slice
+// of completion patterns and passes it to some operations (at least two, with a pattern-less
+// operation in between), which is how completion patterns are used in practice.
+func GenMulti(r *rand.Rand) Desc {
+	d := Desc{Kind: "multi", Driver: "generic", API: "driver"}
+	genCommon(r, &d)
+	if r.Intn(3) == 0 {
+		d.API = "channel"
+	}
+	d.Prompt = d.Host + string("#>$"[r.Intn(3)])
+	if r.Intn(2) == 0 {
+		d.Prompt += " "
+	}
+	d.Exact = r.Intn(3) == 0
+	d.PSD = 1000
+	tok := "zzdone" + randStr(r, "abcdefghijklmnopqrstuvwxy", 3)
+	d.CompText = []string{"Operation " + tok + " finished", tok, "% " + tok + ": nothing to do"}[r.Intn(3)]
+	d.CompRe = tok
+	if r.Intn(2) == 0 {
+		d.CompRe2 = "zzabort" + randStr(r, "abcdefghijklmnopqrstuvwxy", 3) + `\w*`
+	}
+	n := 3 + r.Intn(3)
+	uses := make([]bool, n)
+	for {
+		for i := range uses {
+			uses[i] = r.Intn(2) == 0
+		}
+		// some operation with patterns, later one without, later one with again
+		st := 0
+		for _, u := range uses {
+			if (st == 0 && u) || (st == 1 && !u) || (st == 2 && u) {
+				st++
+			}
+		}
+		if st == 3 {
+			break
+		}
+	}
+	before := ""
+	for i := 0; i < n; i++ {
+		base := d
+		base.Complete = ""
+		if uses[i] {
+			base.Complete = "text"
+		}
+		for {
+			o := genDialogueOnce(r, false, &base, i)
+			if o.PSD == 0 || !o.endsAtPrompt() || !o.echoesUnambiguous(before) {
+				continue
+			}
+			// make it likely that an intermediate event ends at a prompt (what a clobbered pattern
+			// slice turns into a bogus completion)
+			d.Ops = append(d.Ops, o)
+			before = o.lastReaction()
+			break
+		}
+	}
+	return d
+}
+
+// GenWedge draws a case in which one write of an interactive operation is stuck in the transport
+// past the operation timeout: the secret of an escalation, or an event's input of a dialogue.
+func GenWedge(r *rand.Rand) Desc {
+	var d Desc
+	if r.Intn(2) == 0 {
+		d = GenEscalation(r)
+		e := d.Esc
+		e.Rounds, e.Given, e.Success = []string{[]string{"ask-accept", "ask-reject"}[r.Intn(2)]}, e.Secret, false
+		e.API = []string{"acquire", "command", "interactive"}[r.Intn(3)]
+		d.Wedge = &Wedge{Input: e.Given, What: "secret"}
+	} else {
+		for {
+			d = GenDialogue(r, false)
+			ok := d.Driver == "generic" && !d.Fresh && d.Sent() >= 1
+			for _, e := range d.Events {
+				ok = ok && len(e.Burst) == 0 && !e.LongTail
+			}
+			if ok {
+				break
+			}
+		}
+		d.Post = nil
+		k := r.Intn(d.Sent())
+		d.Wedge = &Wedge{Input: d.Events[k].Input, What: "event", Event: k}
+		// the held input must be recognisable among the writes
+		for i, e := range d.Events {
+			if i != k && e.Input == d.Events[k].Input {
+				d.Events[i].Input = "w" + e.Input
+			}
+		}
+	}
+	d.Wedge.TimeoutMS = 1500 + 500*r.Intn(2)
+	d.Wedge.GraceMS = 700
+	if d.Seg.Delay == "sleep" && d.Seg.Size <= 3 && d.Seg.Mode != "whole" {
+		d.Seg.Delay = "gosched" // keep what precedes the held write far inside the short timeout
+	}
 	return d
 }
